@@ -163,6 +163,11 @@ package vm
 //@ func (*VM).execAsync$1
 //@   requires maxSteps > 0
 //@   callpre (*vm.VM).executeRaw arg0.maxSteps == maxSteps
+// the block runs on a VM that this goroutine has just made for it: no operand, iterator or other
+// state left behind by an earlier block can leak into its result
+//@   callpre (*vm.VM).executeRaw fresh(arg0) && len(arg0.stack) == 0 && len(arg0.iterators) == 0
+//@ func NewVM
+//@   ensures result != nil && fresh(result) && len(result.stack) == 0 && result.iterators != nil && fresh(result.iterators) && len(result.iterators) == 0 && result.maxSteps == 0
 
 // ---- operators (C02, C04): the VM against the language oracle (contracts/lang.spec), the same one the
 // ---- interpreter's operators are verified against (pkg/interpreter/contracts_verif.go)
